@@ -23,7 +23,7 @@ for line in open(p).read().split('\n'):
         # last three cells: s1 | s2 | s3 |
         s3 = cells[-1].rstrip(' |')
         cells[-3] = res[(m.group(1), '1')]
-        cells[-2] = res.get((m.group(1), '2'), '–')
+        cells[-2] = res.get((m.group(1), '2'), cells[-2])
         cells[-1] = s3 + ' |'
         line = ' | '.join(cells)
         n += 1
